@@ -42,6 +42,8 @@ struct Inner {
 pub struct SimDisk {
     inner: Arc<Mutex<Inner>>,
     ctx: Arc<RunCtx>,
+    /// W-COUNTER: while closed, every backend call parks its (blocking-pool) thread here
+    gate: Arc<(Mutex<(bool, usize)>, std::sync::Condvar)>,
 }
 
 impl std::fmt::Debug for SimDisk {
@@ -175,6 +177,33 @@ impl SimDisk {
                 call_log: Vec::new(),
             })),
             ctx: ctx.clone(),
+            gate: Arc::new((Mutex::new((false, 0)), std::sync::Condvar::new())),
+        }
+    }
+
+    /// Park every subsequent backend call until `open_gate`.
+    pub fn close_gate(&self) {
+        self.gate.0.lock().unwrap().0 = true;
+    }
+
+    pub fn open_gate(&self) {
+        self.gate.0.lock().unwrap().0 = false;
+        self.gate.1.notify_all();
+    }
+
+    /// Number of threads currently parked at the gate.
+    pub fn parked(&self) -> usize {
+        self.gate.0.lock().unwrap().1
+    }
+
+    fn wait_gate(&self) {
+        let mut g = self.gate.0.lock().unwrap();
+        if g.0 {
+            g.1 += 1;
+            while g.0 {
+                g = self.gate.1.wait(g).unwrap();
+            }
+            g.1 -= 1;
         }
     }
 
@@ -318,6 +347,7 @@ impl SimDisk {
 
 impl StorageBackend for SimDisk {
     fn len(&self) -> io::Result<u64> {
+        self.wait_gate();
         let g = self.inner.lock().unwrap();
         if g.crashed {
             return Err(io::Error::other("simulated: process crashed"));
@@ -326,6 +356,7 @@ impl StorageBackend for SimDisk {
     }
 
     fn read(&self, offset: u64, len: usize) -> io::Result<Vec<u8>> {
+        self.wait_gate();
         let g = self.inner.lock().unwrap();
         if g.crashed {
             return Err(io::Error::other("simulated: process crashed"));
@@ -338,6 +369,7 @@ impl StorageBackend for SimDisk {
     }
 
     fn set_len(&self, len: u64) -> io::Result<()> {
+        self.wait_gate();
         let mut g = self.inner.lock().unwrap();
         self.gate(&mut g, 1, len, 0, Some(Pending::SetLen(len)))?;
         g.current.set_len(len);
@@ -347,6 +379,7 @@ impl StorageBackend for SimDisk {
     }
 
     fn sync_data(&self, eventual: bool) -> io::Result<()> {
+        self.wait_gate();
         let mut g = self.inner.lock().unwrap();
         self.gate(&mut g, 2, eventual as u64, 0, None)?;
         g.syncs += 1;
@@ -362,6 +395,7 @@ impl StorageBackend for SimDisk {
     }
 
     fn write(&self, offset: u64, data: &[u8]) -> io::Result<()> {
+        self.wait_gate();
         let mut g = self.inner.lock().unwrap();
         let p = Pending::Write {
             off: offset,
